@@ -232,68 +232,127 @@ Ltac kill_list L :=
 (* ---- the main refinement ------------------------------------------------------------------- *)
 (* One statement over the view so that the case analysis is on seven short lists, not on the
    unbounded component list. *)
-Definition step_ok (s : cost) (o : cop) : Prop :=
-  let '(s', r) := apply s o in
+Definition step_ok_of (res : cost * res unit) (s : cost) (o : cop) : Prop :=
+  let '(s', r) := res in
   normal_v (view_of s') = true
   /\ (abs_v (view_of s'), r) = sp_apply (abs_v (view_of s)) o
   /\ (forall e, r = Err e -> s' = s).
+Definition step_ok (s : cost) (o : cop) : Prop := step_ok_of (apply s o) s o.
 
 Ltac unfold_setters :=
-  unfold apply, apply_gen, set_number_per, set_number_total, set_currency, set_currency_gen,
-    raw_set_number_per, raw_set_number_total, raw_set_currency, raw_set_currency_gen, set_date, set_label, set_merge,
+  unfold step_ok, step_ok_of, apply, apply_gen, rapply, rapply_gen, cop_of,
+    set_number_per, set_number_total, set_currency, set_currency_gen,
+    raw_set_number_per, raw_set_number_total, raw_set_number_per_gen, raw_set_number_total_gen,
+    raw_set_currency, raw_set_currency_gen, refuse_if, set_date, set_label, set_merge,
     inplace_number_per, inplace_number_total, inplace_currency,
     raw_number_per, raw_number_total, raw_currency, raw_date, raw_label, get_merge,
     set_compound_comp, set_amount_comp, set_number_comp, set_currency_comp,
     set_date_comp, set_label_comp, set_asterisk_comp, into_unit_cost, into_total_cost, with_comps,
     compound_comp, amount_comp, number_comp, currency_comp, date_comp, label_comp, asterisk_comp, un_get.
 
-Lemma step_refines : forall s o, Normal s -> step_ok s o.
-Proof.
-  intros [b l] o N. unfold Normal in N. rewrite normal_view in N.
-  pose proof (view_of_wf (mkcost b l)) as W.
-  unfold step_ok. unfold_setters. cbn [c_brace c_comps].
-  rewrite !find_hd.
-  unfold view_of in *. cbn [c_brace c_comps] in *.
-  unfold view_wf, normal_v in *. cbn [v_brace v_comp v_amt v_num v_cur v_date v_label v_ast] in *.
-  destruct W as (Wc & Wa & Wn & Wu & Wd & Wl & Ws).
-  (* name the seven filtered lists; from here on the component list itself is opaque *)
-  remember (filter is_compound l) as fc eqn:Efc.
-  remember (filter is_amount l) as fa eqn:Efa.
-  remember (filter is_number l) as fn eqn:Efn.
-  remember (filter is_currency l) as fu eqn:Efu.
-  remember (filter is_date l) as fd eqn:Efd.
-  remember (filter is_label l) as fl eqn:Efl.
-  remember (filter is_asterisk l) as fs eqn:Efs.
-  apply andb_prop in N as [N Ns]. apply andb_prop in N as [N Nl]. apply andb_prop in N as [N Nd].
-  pose proof Nd as Nd'. pose proof Nl as Nl'. pose proof Ns as Ns'.
+(* after the operation has been fixed: rewrite everything to the seven filtered lists and name them;
+   from there on the component list itself is opaque *)
+Ltac view_setup b l N :=
+  unfold Normal in N; rewrite normal_view in N;
+  pose proof (view_of_wf (mkcost b l)) as W;
+  unfold_setters; cbn [c_brace c_comps];
+  rewrite !find_hd;
+  unfold view_of in *; cbn [c_brace c_comps] in *;
+  unfold view_wf, normal_v in *; cbn [v_brace v_comp v_amt v_num v_cur v_date v_label v_ast] in *;
+  destruct W as (Wc & Wa & Wn & Wu & Wd & Wl & Ws);
+  remember (filter is_compound l) as fc eqn:Efc;
+  remember (filter is_amount l) as fa eqn:Efa;
+  remember (filter is_number l) as fn eqn:Efn;
+  remember (filter is_currency l) as fu eqn:Efu;
+  remember (filter is_date l) as fd eqn:Efd;
+  remember (filter is_label l) as fl eqn:Efl;
+  remember (filter is_asterisk l) as fs eqn:Efs;
+  apply andb_prop in N as [N Ns]; apply andb_prop in N as [N Nl]; apply andb_prop in N as [N Nd];
+  pose proof Nd as Nd'; pose proof Nl as Nl'; pose proof Ns as Ns';
   apply Nat.leb_le in N, Ns, Nl, Nd.
-  (* the amount-like part: at most one component among the four kinds *)
+
+(* the amount-like part: at most one component among the four kinds *)
+Ltac amount_cases b N Wc Wa Wn Wu :=
   destruct b;
     kill_list Wc; try (exfalso; cbn in N; lia);
     try match goal with E : [KCompound ?p ?t _] = _ |- _ => destruct p; destruct t end;
     kill_list Wa; try (exfalso; cbn in N; lia);
     kill_list Wn; try (exfalso; cbn in N; lia);
     kill_list Wu; try (exfalso; cbn in N; lia);
-    clear N;
+    clear N.
+
+Ltac finish_case Efc Efa Efn Efu Efd Efl Efs Nd' Nl' Ns' :=
+  cbn [hd_error option_map negb andb];
+  (split; [| split; [| intros e He; try discriminate He; reflexivity]]);
+  cbn [c_comps c_brace fst snd];
+  push_filters;
+  rewrite <- ?Efc, <- ?Efa, <- ?Efn, <- ?Efu, <- ?Efd, <- ?Efl, <- ?Efs;
+  rewrite ?Nd', ?Nl', ?Ns';
+  cbn; reflexivity.
+
+Lemma step_refines : forall s o, Normal s -> step_ok s o.
+Proof.
+  intros [b l] o N. view_setup b l N.
+  amount_cases b N Wc Wa Wn Wu;
     (destruct o as [[x|]|[x|]|[x|]|[x|]|[x|]|[|]];
      [ | | | | |
      | kill_list Wd; try (exfalso; cbn in Nd; lia) | kill_list Wd; try (exfalso; cbn in Nd; lia)
      | kill_list Wl; try (exfalso; cbn in Nl; lia) | kill_list Wl; try (exfalso; cbn in Nl; lia)
      | kill_list Ws; try (exfalso; cbn in Ns; lia) | kill_list Ws; try (exfalso; cbn in Ns; lia) ]);
-    cbn [hd_error option_map negb andb];
-    (split; [| split; [| intros e He; try discriminate He; reflexivity]]);
-    cbn [c_comps c_brace fst snd];
-    push_filters;
-    rewrite <- ?Efc, <- ?Efa, <- ?Efn, <- ?Efu, <- ?Efd, <- ?Efl, <- ?Efs;
-    rewrite ?Nd', ?Nl', ?Ns';
-    cbn; reflexivity.
+    finish_case Efc Efa Efn Efu Efd Efl Efs Nd' Nl' Ns'.
+Qed.
+
+(* the raw-level setters with a free node (fresh or a deep copy) refine the same specification *)
+Lemma rstep_refines : forall s r v, Normal s -> step_ok_of (rapply s r v false) s (cop_of r v).
+Proof.
+  intros [b l] r v N. view_setup b l N.
+  amount_cases b N Wc Wa Wn Wu;
+    destruct r; destruct v as [x|];
+    finish_case Efc Efa Efn Efu Efd Efl Efs Nd' Nl' Ns'.
 Qed.
 
 Theorem apply_refines : forall s o s' r, Normal s -> apply s o = (s', r) ->
   Normal s' /\ (abs s', r) = sp_apply (abs s) o /\ (forall e, r = Err e -> s' = s).
 Proof.
-  intros s o s' r N E. pose proof (step_refines s o N) as H. unfold step_ok in H. rewrite E in H.
+  intros s o s' r N E. pose proof (step_refines s o N) as H. unfold step_ok, step_ok_of in H. rewrite E in H.
   unfold Normal. rewrite normal_view, !abs_view. exact H.
+Qed.
+
+Theorem rapply_refines : forall s r v s' x, Normal s -> rapply s r v false = (s', x) ->
+  Normal s' /\ (abs s', x) = sp_apply (abs s) (cop_of r v) /\ (forall e, x = Err e -> s' = s).
+Proof.
+  intros s r v s' x N E. pose proof (rstep_refines s r v N) as H. unfold step_ok_of in H. rewrite E in H.
+  unfold Normal. rewrite normal_view, !abs_view. exact H.
+Qed.
+
+(* a node that is attached elsewhere is refused by every raw setter, from every state (normal or not),
+   with ValueError and before anything has been written (statement order of the repaired code) *)
+Ltac stuck_find :=
+  match goal with
+  | E : find ?k ?l = Some ?c |- _ =>
+    let H := fresh in pose proof (find_some _ _ E) as [_ H]; cbn in H; discriminate H
+  end.
+
+Theorem raw_refusal_atomic : forall fixed s r v s' x,
+  rapply_gen fixed false s r (Some v) true = (s', x) -> x = Err ValueError /\ s' = s.
+Proof.
+  intros fixed s r v s' x E.
+  unfold rapply_gen, raw_set_number_per_gen, raw_set_number_total_gen, raw_set_currency_gen, refuse_if,
+    compound_comp, amount_comp, number_comp, currency_comp, un_get in E.
+  destruct r;
+    repeat match type of E with
+           | context [match ?y with _ => _ end] => destruct y eqn:?
+           end;
+    try (inversion E; subst; split; reflexivity);
+    stuck_find.
+Qed.
+
+(* the statement order before fixes/costspec-raw-setter-atomic.patch flips the braces first *)
+Theorem raw_late_refuted : exists s r v s' x,
+  Normal s /\ rapply_gen true true s r (Some v) true = (s', x) /\ x = Err ValueError /\ s' <> s.
+Proof.
+  exists (mkcost Total [KAmount 1 2]), RPer, 7, (mkcost Unit [KAmount 1 2]), (Err ValueError).
+  repeat split; try reflexivity. discriminate.
 Qed.
 
 (* all assignment sequences, refused assignments included *)
